@@ -70,7 +70,7 @@ func runScenario(rng *rand.Rand, store *db.Database, serial uint64, long bool, s
 	}
 	rig, err := proc.New(proc.Options{Key: vlib.Key(proc.NodeKey), DB: store, ObsvReqCap: maxInt(reqCap, 1)})
 	if err != nil {
-		r.Inconclusive("rig: " + err.Error())
+		r.InconclusiveCase("rig: " + err.Error())
 		return
 	}
 	defer rig.Close()
@@ -147,7 +147,7 @@ func runScenario(rng *rand.Rand, store *db.Database, serial uint64, long bool, s
 	}
 	for _, e := range ents {
 		if !snap[e.digest] {
-			r.Inconclusive("entry of kind " + e.kind + " was not created")
+			r.InconclusiveCase("entry of kind " + e.kind + " was not created")
 			return
 		}
 	}
